@@ -165,11 +165,13 @@ def eval_case(case, rec):
                     extra = [cls(i) for i in case.get('also_listed', [])]
                     listed = [cls(i) for i in case['real']]
                     listed = extra + listed if case.get('listed_first') else listed + extra
-                    tc = TestChain(listed, mock_tasks=mocks, parameters=params_for_helper(), **kw)
+                    supplied_params = params_for_helper()
+                    tc = TestChain(listed, mock_tasks=mocks, parameters=supplied_params, **kw)
                     helper_tasks = {mod['tasks'][i]['slug']: tc[mod['tasks'][i]['slug']] for i in case['real']}
                 else:
                     i = case['real'][0]
-                    t = create_test_task(cls(i), input_tasks=mocks, parameters=params_for_helper(), **kw)
+                    supplied_params = params_for_helper()
+                    t = create_test_task(cls(i), input_tasks=mocks, parameters=supplied_params, **kw)
                     helper_tasks = {mod['tasks'][i]['slug']: t}
                     tc = None
         except Exception as e:
@@ -179,6 +181,20 @@ def eval_case(case, rec):
             raise Violation('helper-construction-raised', dict(info, error=repr(e)[:300]))
         if ref_err is not None:
             raise Violation('invalid-not-reported-at-construction:' + ref_err.kind, dict(info, model_error=str(ref_err)))
+        # parameter OBJECTS supplied as instances reach the task as those very objects (a helper that copies them would
+        # break identity-based use: sentinels compared with `is`, objects used as keys)
+        if case['instances']:
+            for i in case['real']:
+                spec_t = mod['tasks'][i]
+                ht = helper_tasks.get(spec_t['slug'])
+                if ht is None:
+                    continue
+                for p_ in spec_t['params']:
+                    key_ = p_.get('cfg') or p_['name']
+                    sv = supplied_params.get(key_)
+                    if sv is not None and hasattr(sv, 'tcv_canon') and ht.params[p_['name']] is not sv:
+                        raise Violation('parameter-object-not-the-supplied-instance', dict(info, task=spec_t['slug'],
+                                                                                          param=p_['name']))
         # values through the helper
         got = {}
         for slug, t in helper_tasks.items():
